@@ -4726,7 +4726,12 @@ func (a *Association) onRetransmissionFailure(id int) {
 	a.lock.Lock()
 	defer a.lock.Unlock()
 
+	// The timer decides the failure before it asks for this lock: the packet it was
+	// waiting for may have been handled in between, and then the verdict is void.
 	if id == timerT1Init {
+		if a.getState() != cookieWait {
+			return
+		}
 		a.log.Errorf("[%s] retransmission failure: T1-init", a.name)
 		a.completeHandshake(ErrHandshakeInitAck)
 
@@ -4734,6 +4739,9 @@ func (a *Association) onRetransmissionFailure(id int) {
 	}
 
 	if id == timerT1Cookie {
+		if a.getState() != cookieEchoed {
+			return
+		}
 		a.log.Errorf("[%s] retransmission failure: T1-cookie", a.name)
 		a.completeHandshake(ErrHandshakeCookieEcho)
 
